@@ -604,3 +604,81 @@ func (r *run) cancelInBuildScenario(s *gocql.Session, pool *node.ServerConn, poo
 		rep.Results = append(rep.Results, res)
 	}
 }
+
+// flagBodyScenario: a per-request framing error (compress flag on a connection without compressor) must
+// consume the frame's body: the victim gets the error, everybody else its own answer, and nothing of the
+// victim's body is ever parsed as a frame.
+func (r *run) flagBodyScenario(s *gocql.Session, pool *node.ServerConn, rep *Report, viol violFn) {
+	h := r.h
+	K := len(h.Fates)
+	r.mu.Lock()
+	for i := 0; i < K; i++ {
+		r.fates[tokenOf(h.Index, i)] = FHeld
+	}
+	r.mu.Unlock()
+	res := make([]CallerResult, K)
+	var wg sync.WaitGroup
+	for i := 0; i < K; i++ {
+		wg.Add(1)
+		go func(i int) {
+			defer wg.Done()
+			res[i] = doQuery(s, context.Background(), tokenOf(h.Index, i))
+		}(i)
+	}
+	r.n.WaitFor(3*time.Second, func() bool { r.mu.Lock(); defer r.mu.Unlock(); return len(r.heldSeq) == K })
+	r.mu.Lock()
+	seq := append([]string(nil), r.heldSeq...)
+	reqs := map[string]*node.Request{}
+	for _, t := range seq {
+		reqs[t] = r.received[t]
+		delete(r.held, t)
+	}
+	r.heldDone = true
+	r.mu.Unlock()
+	if len(seq) < 2 {
+		rep.Note = "flag-body: requests did not arrive"
+		return
+	}
+	victim := seq[0]
+	ver := 0x80 | byte(h.Proto)
+	var body []byte
+	switch h.FlagBody {
+	case 1:
+		_, b := rowsFor(victim + "-content-of-A").Encode(h.Proto)
+		body = node.RawFrame(ver, 0, reqs[seq[1]].Header.Stream, node.OpResult, b)
+	case 2:
+		_, b := rowsFor(victim + "-content-of-A").Encode(h.Proto)
+		body = node.RawFrame(ver, 0, 100, node.OpResult, b)
+	default:
+		body = []byte{0xff, 0xfe, 0x00, 0x13, 0x37, 0xff, 0xff, 0xff, 0xff, 0x01, 0x02, 0x03}
+	}
+	pool.WriteRaw(node.RawFrame(ver, 0x01, reqs[victim].Header.Stream, node.OpResult, body))
+	for _, t := range seq[1:] {
+		pool.Reply(reqs[t], rowsFor(t))
+	}
+	if !watchdog(20*time.Second, wg.Wait) {
+		viol("caller-hang", "", "compress-flag scenario: callers did not return within 20s\n%s", goroutineDump())
+		return
+	}
+	for i := range res {
+		r.checkResult(res[i], rep, viol, "")
+		if res[i].Token == victim {
+			if res[i].Class == "ok" || res[i].Class == "errframe" {
+				viol("token", "", "caller %s was handed a response although its answer was a compress-flagged frame on a connection without compressor", victim)
+			}
+		} else if res[i].Class != "ok" {
+			viol("outcome", "", "caller %s: its own well-formed answer followed another request's per-request framing error and ended with %s (%s): the connection lost its framing", res[i].Token, res[i].Class, res[i].Err)
+		}
+	}
+	rep.Results = append(rep.Results, res...)
+	rep.NonTriv = true
+	// the connection is still in step: further requests get their answers
+	for j := 0; j < 2; j++ {
+		rr := doQuery(s, context.Background(), tokenOf(h.Index, K+j))
+		r.checkResult(rr, rep, viol, "")
+		if rr.Class != "ok" {
+			viol("outcome", "", "caller %s: request after the framing error ended with %s (%s)", rr.Token, rr.Class, rr.Err)
+		}
+		rep.Results = append(rep.Results, rr)
+	}
+}
